@@ -62,6 +62,13 @@ func (st StructField) JSONName() string {
 	return st.Field.Name()
 }
 
+// hasJSONName returns true if the 'json' tag names the field
+// (the part before the first comma is not empty).
+func (st StructField) hasJSONName() bool {
+	name, _, _ := strings.Cut(st.Tag.Get("json"), ",")
+	return name != ""
+}
+
 // Exported returns `true` is the field is exported and should be
 // included in the generated code.
 // Ignored field are either :
